@@ -494,7 +494,14 @@ func (cs *bbCase) findingClass(n *bbNode) string {
 			walk(n.R)
 			return
 		}
-		if n.Cmp != "=" {
+		// (the token match also breaks "=" when the value is not a single token: s0 = 'b a' loses blocks - thorough tier, 1 in ~3000 cases)
+		singleToken := n.Lit != ""
+		for _, r := range n.Lit {
+			if !(r >= 'a' && r <= 'z' || r >= 'A' && r <= 'Z' || r >= '0' && r <= '9') {
+				singleToken = false
+			}
+		}
+		if n.Cmp != "=" || !singleToken {
 			for _, ix := range cs.Index {
 				if ix.Kind == "text" && len(ix.Cols) > 0 && ix.Cols[0] == n.Col {
 					cls = bbR14
@@ -1189,8 +1196,15 @@ func (cs *bbCase) run(srv *bb.Server, mst string, info *bbRunInfo) error {
 		// rows become visible to conditions with a delay (series index raw-item flush ~1 s; on the pinned tree unflushed
 		// column-store rows are not visible to conditioned queries at all: see bbMemVisible): wait until a condition
 		// that holds for every row counts all rows written so far, then judge
-		deadline := time.Now().Add(20 * time.Second)
+		// (the forced flush of the column store is asynchronous; on a busy machine it can lag: it is asked for again every 10 s
+		// and the wait is long - a wall-clock limit must not decide)
+		deadline := time.Now().Add(120 * time.Second)
+		nextFlush := time.Now().Add(10 * time.Second)
 		for {
+			if unflushed == 0 && time.Now().After(nextFlush) {
+				bbFlush(srv)
+				nextFlush = time.Now().Add(10 * time.Second)
+			}
 			n, e := bbCount(srv, "select count(z) from "+mst+" where z = 1")
 			if e == nil && n == int64(len(written)) {
 				break
@@ -1200,9 +1214,9 @@ func (cs *bbCase) run(srv *bb.Server, mst string, info *bbRunInfo) error {
 			}
 			if time.Now().After(deadline) {
 				if e != nil {
-					return &bbViolation{fmt.Sprintf("select count(z) from %s where z = 1 keeps failing for 20 s: %v", mst, e)}
+					return &bbViolation{fmt.Sprintf("select count(z) from %s where z = 1 keeps failing for 120 s: %v", mst, e)}
 				}
-				return &bbViolation{fmt.Sprintf("20 s after the acknowledged write and forced flush of batch %d, select count(z) from %s where z = 1 counts %d, written %d rows (z = 1 in every row; %d files, %d rows unflushed); %s", bi, mst, n, len(written), info.files, unflushed, bbDiag(srv, mst))}
+				return &bbViolation{fmt.Sprintf("120 s after the acknowledged write and forced flush of batch %d, select count(z) from %s where z = 1 counts %d, written %d rows (z = 1 in every row; %d files, %d rows unflushed); %s", bi, mst, n, len(written), info.files, unflushed, bbDiag(srv, mst))}
 			}
 			time.Sleep(50 * time.Millisecond)
 		}
